@@ -354,6 +354,8 @@ func (versionSuite) Run(raw json.RawMessage) []Step {
 				}
 			}
 			steps = append(steps, Step{Line: "v.sat\t" + hx(op.A) + "\t" + hx(op.B), Go: out, Desc: fmt.Sprintf("ResolvePackageNameVersionPin(%q).SatisfiedBy(%q)", op.A, op.B), Tags: []string{fmt.Sprintf("sat:dep%d:%s", d, out)}, Trivial: out == "verr" || out == "err"})
+			// the check on the Go → Lean translator: the same call against Generated.Trans.satisfies (extract/trans.go)
+			steps = append(steps, Step{Line: "tv.sat\t" + hx(op.A) + "\t" + hx(op.B), Go: out, Desc: fmt.Sprintf("translated satisfies: ResolvePackageNameVersionPin(%q).SatisfiedBy(%q)", op.A, op.B), Tags: []string{"tv.sat"}, Trivial: out == "verr" || out == "err"})
 		case "res":
 			// the constraint as the RESOLVER applies it: three one-candidate universes in which the only way to
 			// succeed is that the candidate's version is accepted by the constraint
@@ -365,8 +367,6 @@ func (versionSuite) Run(raw json.RawMessage) []Step {
 			}
 			out := vResolveThrough(n, strings.TrimSuffix(op.A, "@"+pin), op.B)
 			steps = append(steps, Step{Line: "v.res\t" + hx(op.A) + "\t" + hx(op.B), Go: out, Desc: fmt.Sprintf("one-candidate resolutions (world entry / dependency on the name / dependency on a provided name) of %q against version %q", op.A, op.B), Tags: []string{fmt.Sprintf("res:dep%d:%s", d, out)}})
-			// the check on the Go → Lean translator: the same call against Generated.Trans.satisfies (extract/trans.go)
-			steps = append(steps, Step{Line: "tv.sat\t" + hx(op.A) + "\t" + hx(op.B), Go: out, Desc: fmt.Sprintf("translated satisfies: ResolvePackageNameVersionPin(%q).SatisfiedBy(%q)", op.A, op.B), Tags: []string{"tv.sat"}, Trivial: out == "verr" || out == "err"})
 		}
 	}
 	return steps
